@@ -276,41 +276,59 @@ func (j *Join) JoinMatchFunc(lk string, lv *map[string]any, l, r *HashedTable) (
 		if !ok {
 			return false, nil, INVALID_TYPE.Extend(fmt.Sprintf("failed to build `JOIN` expression, expected boolean but found %T", rsValue))
 		}
-		if rsValue || !j.joinType.IsInner() {
-			b = true
-			if len(j.into) != 0 {
-				current := make(Map)
-				if err := Copy(current, l.Rows[lk], j.leftIdent); err != nil {
-					return false, nil, err
-				}
-				if err := Copy(current, r.Rows[rk], j.rightIdent); err != nil {
-					return false, nil, err
-				}
-
-				maps.Copy(current, *(l.Keys[lk]))
-				if _, ok := r.Keys[rk]; ok {
-					maps.Copy(current, *(r.Keys[rk]))
-				}
-				out := make(Map)
-				out[j.into] = current
-				slice = append(slice, out)
-				continue
+		if !rsValue {
+			continue
+		}
+		b = true
+		if len(j.into) != 0 {
+			current := make(Map)
+			if err := Copy(current, l.Rows[lk], j.leftIdent); err != nil {
+				return false, nil, err
 			}
-			for _, lr := range l.Rows[lk] {
-				if len(r.Rows) > 0 {
-					for _, rr := range r.Rows[rk] {
-						mapper := make(Map)
-						maps.Copy(mapper, (*lr).(Map))
-						maps.Copy(mapper, (*rr).(Map))
-						slice = append(slice, mapper)
-					}
-					continue
-				}
+			if err := Copy(current, r.Rows[rk], j.rightIdent); err != nil {
+				return false, nil, err
+			}
+
+			maps.Copy(current, *(l.Keys[lk]))
+			if _, ok := r.Keys[rk]; ok {
+				maps.Copy(current, *(r.Keys[rk]))
+			}
+			out := make(Map)
+			out[j.into] = current
+			slice = append(slice, out)
+			continue
+		}
+		for _, lr := range l.Rows[lk] {
+			for _, rr := range r.Rows[rk] {
 				mapper := make(Map)
 				maps.Copy(mapper, (*lr).(Map))
-				mapper[j.rightIdent] = nil
+				maps.Copy(mapper, (*rr).(Map))
 				slice = append(slice, mapper)
 			}
+		}
+	}
+	// rows of an outer join that found no partner are emitted once with a NULL other side
+	if !b && !j.joinType.IsInner() {
+		b = true
+		if len(j.into) != 0 {
+			current := make(Map)
+			if err := Copy(current, l.Rows[lk], j.leftIdent); err != nil {
+				return false, nil, err
+			}
+			if err := Copy(current, nil, j.rightIdent); err != nil {
+				return false, nil, err
+			}
+			maps.Copy(current, *(l.Keys[lk]))
+			out := make(Map)
+			out[j.into] = current
+			slice = append(slice, out)
+			return b, slice, nil
+		}
+		for _, lr := range l.Rows[lk] {
+			mapper := make(Map)
+			maps.Copy(mapper, (*lr).(Map))
+			mapper[j.rightIdent] = nil
+			slice = append(slice, mapper)
 		}
 	}
 	return b, slice, nil
